@@ -24,6 +24,7 @@ theorem scanAtt_bound (hd : DecLt10 cls) {ep r : Str} {n : Nat}
           injection this with this; injection this
         subst hv
         have hb := pyInt_bound hd _ _ hp
+        have hlim : attDigitLimit = 10 := rfl
         exact Nat.lt_of_lt_of_le hb (Nat.pow_le_pow_right (by decide) (by omega))
   · have : (Except.ok (0, ep) : Except Err (Nat × Str)) = Except.ok (n, r) := h
     injection this with this; injection this with h0 _
